@@ -47,6 +47,7 @@ def strategy(tier):
         st.tuples(st.just('pack'), st.integers(0, 8)),
         st.tuples(st.just('read'), i),
         st.tuples(st.just('observe'), st.booleans()),
+        st.tuples(st.just('minimize')),
     ).map(list)
     return st.fixed_dictionaries({'kind': st.sampled_from(['fs', 'fs', 'bmap']),
                                   'ops': st.lists(op, min_size=3, max_size=n)})
@@ -321,6 +322,14 @@ class BlobWorld:
             self.undo(op[1])
         elif k == 'pack':
             self.pack(op[1])
+        elif k == 'minimize':
+            # the connection forgets every object it can (unchanged or saved by a savepoint): blobs written
+            # before a savepoint are then known to the connection by their records only
+            self.conn.cacheMinimize()
+            import gc
+            gc.collect()            # (ghosts stay in the cache while anything, e.g. a closed blob file, refers to them)
+            if self.sps:
+                self.labels.add('cache-minimized-after-savepoint')
 
     def dirty(self):
         return bool(self.work or self.node_work is not None)
